@@ -77,8 +77,9 @@ fn offset_positions(text: &str, off: usize) -> Vec<(u32, u32)> {
                 li = i;
             }
         }
-        let (s, _) = spans[li];
-        let seg = &text[s..off];
+        let (s, e) = spans[li];
+        // an offset inside a line terminator (the '\n' of "\r\n") belongs to the end of the line's content
+        let seg = &text[s..off.min(e.max(s))];
         out.push((li as u32, seg.chars().count() as u32));
         out.push((li as u32, utf16_len(seg) as u32));
     }
